@@ -89,3 +89,11 @@ impl<'a, M: Flat + ?Sized, B: ReadBuffer + 'a> Deref for RecvGuard<'a, M, B> {
         unsafe { M::from_bytes_unchecked(self.buffer) }
     }
 }
+
+/// Read-only verification hook (feature `verif`, off by default).
+#[cfg(feature = "verif")]
+impl<M: Flat + ?Sized, B: ReadBuffer> Receiver<M, B> {
+    pub fn verif_buffer(&self) -> &B {
+        &self.buffer
+    }
+}
